@@ -1,1 +1,2 @@
 pub mod geom;
+pub mod model;
